@@ -2,6 +2,8 @@
 """Writes /verif/seeded/README.md from seeded/*/meta.json, result.json and the notes below."""
 import glob, json, os
 NOTES = {
+    'C08_2': 'missed at first (the exiting filter always ended after the pipeline was connected); C08 gained the exit-in-setup variant of every uniform-policy propagation case (judged over the loss-free upstream direction) - caught since',
+    'C18_1': 'missed at first (the harness replaced the emitter lock by a no-op and made check+emit of the heartbeat atomic); C18 gained the emitter-level lock-discipline probe (cooperative lock, emit() yields before the event leaves, random interleavings) - caught since',
     'C02_1': 'missed at first (no consumer ever joined late; C02_Payload did not compare the id a frame was published under with the id it was delivered as); C02 gained the JoinLate topology with a late-join fault and the id comparison - caught since',
     'C02_2': 'missed at first (no two topic names were prefixes of one another); C02 gained the PrefixTopics topology - caught since (C02_Hidden)',
     'C01_1': 'missed at first (single-topic branches only); C01 gained TeeRejoinMulti (topic set varying per id, varying topic published first, lost publishes) and the design mutation inval_complete_only - caught since',
